@@ -1,12 +1,16 @@
 #!/bin/bash
 # usage: tools/try_seed.sh <patch.diff> <check ids...>
-# Applies the patch to /repo, runs the given checks (quick unless TIER is set),
-# and ALWAYS restores /repo afterwards. Prints one line per check.
+# Applies the patch to a scratch worktree of /repo (never to /repo itself, so
+# that checks running elsewhere keep seeing the unchanged tree), runs the given
+# checks against it (quick unless TIER is set) and removes the worktree.
+# Evidence of these runs goes to a scratch directory, not to /verif/evidence.
 P=$1; shift
 cd /verif
-git -C /repo diff --quiet || { echo "/repo is dirty"; exit 2; }
-git -C /repo apply "$P" || { echo "patch does not apply"; exit 2; }
-trap 'git -C /repo checkout -- . ; rm -f /verif/replays/tmpseed-*' EXIT
+WT=/tmp/tryseed-wt-$$
+git -C /repo worktree add -q --detach "$WT" HEAD || exit 2
+export VERIF_REPO=$WT VERIF_EVIDENCE_DIR=/tmp/tryseed-ev-$$
+trap 'git -C /repo worktree remove --force "$WT" >/dev/null 2>&1; rm -rf "$VERIF_EVIDENCE_DIR"' EXIT
+git -C "$WT" apply "$P" || { echo "patch does not apply"; exit 2; }
 for c in "$@"; do
   out=$(bin/check $c ${TIER:-quick} 2>&1); rc=$?
   echo "== $c rc=$rc $(echo "$out" | grep -m1 -E '^VIOLATION' )"
